@@ -188,6 +188,15 @@ def _client_op(which):
         out = cl.request_profile(version=160, prettyprint=True, close_elements=False, gen_newfileuid=False, dryrun=True).read()
     elif which == "statement":
         out = cl.request_statements("pw", StmtRq(acctid="1", accttype="CHECKING"), gen_newfileuid=False, dryrun=True).read()
+    elif which == "serialize-request-overrides":
+        # one request instance written several times with per-call overrides: the instance is the caller's
+        from ofxtools.models.ofx import OFX
+
+        ofx = OFX(signonmsgsrqv1=cl.signon("pw"))
+        m0 = model_repr(ofx)
+        out = cl.serialize(ofx, version=102) + cl.serialize(ofx, version=160, prettyprint=True, close_elements=False) + cl.serialize(ofx)
+        if model_repr(ofx) != m0:
+            return hashlib.sha1(out).hexdigest(), False, "the request instance given to serialize()"
     else:
         out = cl.serialize(U.build(inputs()["stmt_term"]))
     after = repr(sorted((k, repr(v)) for k, v in vars(cl).items() if k != "cookiejar"))
@@ -201,6 +210,8 @@ def _conv(kind, narrow):
 
     text, wide, tight = {
         "string": ("forty characters of perfectly plain text", lambda: Types.String(255), lambda: Types.String(22)),
+        "string-entity": ("forty characters &amp; an entity &lt;here&gt;", lambda: Types.String(255), lambda: Types.String(22)),
+        "nagstring-entity": ("forty characters &amp; an entity &lt;here&gt;", lambda: Types.NagString(255), lambda: Types.NagString(22)),
         "nagstring": ("forty characters of perfectly plain text", lambda: Types.NagString(255), lambda: Types.NagString(22)),
         "integer": ("12345", lambda: Types.Integer(), lambda: Types.Integer(3)),
         "decimal": ("1.005", lambda: Types.Decimal(), lambda: Types.Decimal(2)),
@@ -305,6 +316,10 @@ OPS = {
     "parse_small_acctinfo_v2": lambda: _parse_small("v2"),
     "string_wide_limit": lambda: _conv("string", False),
     "string_narrow_limit": lambda: _conv("string", True),
+    "string_entity_wide_limit": lambda: _conv("string-entity", False),
+    "string_entity_narrow_limit": lambda: _conv("string-entity", True),
+    "nagstring_entity_wide_limit": lambda: _conv("nagstring-entity", False),
+    "nagstring_entity_narrow_limit": lambda: _conv("nagstring-entity", True),
     "nagstring_wide_limit": lambda: _conv("nagstring", False),
     "nagstring_narrow_limit": lambda: _conv("nagstring", True),
     "integer_unbounded": lambda: _conv("integer", False),
@@ -317,14 +332,15 @@ OPS = {
     "client_profile_rq_v160_unclosed_pretty": lambda: _client_op("profile-v160-pretty"),
     "client_statement_rq": lambda: _client_op("statement"),
     "client_serialize_default_form": lambda: _client_op("serialize"),
+    "client_serialize_request_with_overrides": lambda: _client_op("serialize-request-overrides"),
 }
 OPNAMES = list(OPS)
 SMALL = ["dt_convert_fresh_descriptor", "dt_convert_class_descriptor", "dt_unconvert_utc", "dt_unconvert_est_same_instant", "time_unconvert_utc", "time_unconvert_est_same_instant"]
 MEDIUM = ["introspect_base_classes", "from_etree_mail", "from_etree_stockinfo", "from_etree_mfinfo_vendor", "two_instances_one_class", "from_etree_seclist"]
 PARSE_SMALL = ["parse_small_stmt_v1", "parse_small_acctinfo_v2"]
-CONV = ["string_wide_limit", "string_narrow_limit", "nagstring_wide_limit", "nagstring_narrow_limit", "integer_unbounded", "integer_three_digits", "decimal_unscaled", "decimal_two_places",
+CONV = ["string_wide_limit", "string_narrow_limit", "string_entity_wide_limit", "string_entity_narrow_limit", "nagstring_entity_wide_limit", "nagstring_entity_narrow_limit", "nagstring_wide_limit", "nagstring_narrow_limit", "integer_unbounded", "integer_three_digits", "decimal_unscaled", "decimal_two_places",
         "oneof_declaring_token", "oneof_not_declaring_token"]
-CLIENT = ["client_profile_rq_v102", "client_profile_rq_v160_unclosed_pretty", "client_statement_rq", "client_serialize_default_form"]
+CLIENT = ["client_profile_rq_v102", "client_profile_rq_v160_unclosed_pretty", "client_statement_rq", "client_serialize_default_form", "client_serialize_request_with_overrides"]
 BIG = ["parse_stmt_v1", "parse_inv_v2", "serialize_stmt_v2", "serialize_inv_v1_unclosed_pretty", "parse_profile_v1", "parse_truncated"]
 
 
